@@ -175,7 +175,7 @@ def make_cases(comps, tier, r):
         c = {"comp": comp["id"], "kind": comp["kind"], "family": mem["family"], "target": mem["target"], "auth": mem["auth"]}
         c.update(common_opts(comp, mem, r, tier))
         c.update(kw)
-        c["route"] = "cli" if r.random() < 0.15 else "api"
+        c["route"] = r.choice(["cli"] * 3 + ["api2"] * 3 + ["api"] * 14)
         c["id"] = f"c{len(cases)}"
         cases.append(c)
 
@@ -365,6 +365,8 @@ def build(case, comp, d):
         mbi = cls()
         mbi.load_from_config(cfg, search_paths=[d])
         data = mbi.export()
+        if case.get("route") == "api2":  # the same object exported a second time: that image has to boot as well
+            data = mbi.export()
         fuse = mbi.rkth
     rom = {"type": comp["type"], "cb": comp["cb"], "hmac": bool(comp["hmac"]), "tz": mem["tz"], "man": comp["man"]}
     sec = {"userKey": uk, "fuse": fuse if comp["cb"] else None, "plain": None}
@@ -510,13 +512,47 @@ def canary(good_trace):
     b3["id"] = "canary-skipped-step"
     del b3["ev"][-2]
     bads.append(b3)
-    rej, _ = tlc.tv("C02", "MbiRomTrace", [good] + bads)
-    if "canary-good" in rej or set(rej) != {b["id"] for b in bads} or len(bads) < 3:
-        raise Machinery(f"canary failed: rejected {sorted(rej)} of {[b['id'] for b in bads]}")
-    return f"known-good trace accepted; {len(bads)} corrupted copies (signed range short by one word, crypto fact false, step skipped) rejected"
+    if len(bads) < 3:
+        raise Machinery("canary: no signature step in the known-good trace")
+    return [good] + bads
 
 
-def decide(v, cases_by_id, comps_by_id, results, plan, tier):
+def canary_verdict(rej, can):
+    got = {t["id"] for t in can if t["id"] in rej}
+    want = {t["id"] for t in can[1:]}
+    if got != want:
+        raise Machinery(f"canary failed: rejected {sorted(got)}, expected exactly {sorted(want)}")
+    return f"known-good trace accepted; {len(want)} corrupted copies (signed range short by one word, crypto fact false, step skipped) rejected"
+
+
+def anchors():
+    """Golden images of earlier tool versions (anchors/C02): the ROM model has to accept every one of them."""
+    from lib.common import ROOT
+
+    d = os.path.join(ROOT, "anchors", "C02")
+    idx = json.load(open(os.path.join(d, "index.json")))
+    tr = []
+    for e in idx:
+        b = open(os.path.join(d, e["file"]), "rb").read()
+        sec = {"userKey": bytes.fromhex(e["userKey"]) if e["userKey"] else None, "fuse": R.ANY_FUSE, "plain": None}
+        if e["plain"]:
+            pa = open(os.path.join(d, e["plain"]), "rb").read()
+            sec["plain"] = R.mask_rom_words(pa + bytes(-len(pa) % 4))
+        ev, _ = R.walk(b, e["rom"], sec)
+        tr.append({"id": "anchor:" + e["file"], "rom": e["rom"], "ev": ev})
+    if len(tr) < 90:
+        raise Machinery(f"only {len(tr)} golden images in {d}")
+    return tr
+
+
+def anchors_verdict(rej, anc):
+    bad = {t["id"]: rej[t["id"]] for t in anc if t["id"] in rej}
+    if bad:
+        raise Machinery(f"the ROM model rejects {len(bad)} of {len(anc)} golden images: {sorted(bad.items())[:3]}")
+    return len(anc)
+
+
+def decide(v, cases_by_id, comps_by_id, results, plan, tier, can, anc):
     traces, tampers = [], []
     for res in results:
         if res["outcome"] != "exported":
@@ -527,7 +563,7 @@ def decide(v, cases_by_id, comps_by_id, results, plan, tier):
         if not t["ev"] or t["ev"][-1]["ev"] not in ("Accept", "Reject"):
             raise Machinery(f"executor produced an open-ended trace {t['id']}")
     rej = {}
-    allt = traces + [{"id": t["id"], "rom": t["rom"], "ev": t["ev"]} for t in tampers]
+    allt = can + anc + traces + [{"id": t["id"], "rom": t["rom"], "ev": t["ev"]} for t in tampers]
     chunk = 60000
     tv_states = 0
     for k in range(0, len(allt), chunk):
@@ -535,7 +571,9 @@ def decide(v, cases_by_id, comps_by_id, results, plan, tier):
         rej.update(rj)
         tv_states += res.distinct
     v.extra["tv_states"] = tv_states
-    v.traces(len(allt))
+    v.extra["canary"] = canary_verdict(rej, can)  # first of all: the monitor is bound to something
+    v.extra["anchors_accepted"] = anchors_verdict(rej, anc)
+    v.traces(len(traces) + len(tampers))
     by_id = {t["id"]: t for t in traces}
     n_acc = 0
     for t in traces:
@@ -627,11 +665,10 @@ def run(tier):
         results += all_bits(jobs2)
         say(f"[C02] every-bit tamper of {len(jobs2)} images done {v.timer.s()}s")
 
-    good = next(res["trace"] for res in results if res["outcome"] == "exported" and res["trace"]["ev"][-1]["ev"] == "Accept"
-                and any(e["ev"] in ("VerifySigV1", "VerifySigV21") for e in res["trace"]["ev"]))
-    v.extra["canary"] = canary(good)
+    anc = anchors()
+    can = canary(next(t for t in anc if any(e["ev"] == "VerifySigV1" for e in t["ev"])))  # known-good trace: a golden image, independent of the tree
 
-    n_acc, tam_stats, mismatch = decide(v, cases_by_id, comps_by_id, results, plan, tier)
+    n_acc, tam_stats, mismatch = decide(v, cases_by_id, comps_by_id, results, plan, tier, can, anc)
     v.extra["tamper_mismatches"] = mismatch[:20]
     n_tam = sum(s["Rejected"] + s["Accepted"] for s in tam_stats.values())
     v.extra["tamper_rejected"] = sum(s["Rejected"] for s in tam_stats.values())
@@ -640,6 +677,7 @@ def run(tier):
     planned = {k for k in plan if k[1] != "none"}
     done = {tuple(k.split("/")) for k in tam_stats}
     v.extra["tamper_classes_not_exercised"] = sorted("/".join(k) for k in planned - done)
+    say(f"[C02] canary: {v.extra['canary']}; {v.extra['anchors_accepted']} golden images of earlier tool versions accepted by the ROM model")
     say(f"[C02] TV done {v.timer.s()}s: {n_acc} exported images accepted by the ROM automaton, {n_tam} tampered copies decided "
         f"({v.extra['tamper_rejected']} rejected, {v.extra['tamper_accepted_dont_care']} key-store flips accepted as predicted)")
     ex = [res for res in results if res["outcome"] == "exported"]
